@@ -89,6 +89,26 @@ Theorem C08_remove_nonce_rowless_validators : forall f vals extra st,
 Proof. exact remove_nonce_extra_keys. Qed.
 Print Assumptions C08_remove_nonce_rowless_validators.
 
+(* what all of the above rests on: the NonceList is an ORDERED list and the code removes an entry by
+   `append(l[:i], l[i+1:]...)`, which keeps the order of the rest; two such removals commute … *)
+Theorem C08_nonce_removal_commutes : forall f1 f2 nl,
+  remove_first f1 (remove_first f2 nl) = remove_first f2 (remove_first f1 nl).
+Proof. exact remove_first_comm. Qed.
+Print Assumptions C08_nonce_removal_commutes.
+
+(* … including the "delete the row when it becomes empty" part (the per-validator store update) … *)
+Theorem C08_nonce_row_update_commutes : forall f1 f2 k v,
+  g_remove_nonce f1 k (g_remove_nonce f2 k v) = g_remove_nonce f2 k (g_remove_nonce f1 k v).
+Proof. exact g_remove_nonce_comm. Qed.
+Print Assumptions C08_nonce_row_update_commutes.
+
+(* … whereas the cheaper swap-with-last removal does not: removing 1 then 2 from [1;2;3;4] leaves [4;3], 2 then 1
+   leaves [3;4] (seeded mutant C08-3) *)
+Theorem C08_swap_removal_refuted :
+  exists f1 f2 nl, f1 <> f2 /\ remove_swap f1 (remove_swap f2 nl) <> remove_swap f2 (remove_swap f1 nl).
+Proof. exact swap_removal_witness. Qed.
+Print Assumptions C08_swap_removal_refuted.
+
 (* msgServer.CreatePrice: RemoveNonceWithFeederIDForValidators(feederID, agc.GetValidators()) for one feeder *)
 Theorem C08_remove_nonce_for_validators : forall f vals vals' st,
   Permutation vals vals' -> feq (remove_nonce_for f vals st) (remove_nonce_for f vals' st).
